@@ -275,11 +275,15 @@ func (cd codec[T]) check(c *ctx, v T) {
 					}
 				}
 				enc := buf[off : off+n]
+				var freshFailed [2]bool // a used receiver is only blamed where a fresh one decodes correctly
 				for _, dirty := range []bool{false, true} {
 					if dirty && cd.dirty == nil {
 						continue
 					}
-					for _, exact := range []bool{false, true} {
+					for ei, exact := range []bool{false, true} {
+						if dirty && freshFailed[ei] {
+							continue
+						}
 						stage = "Unmarshal"
 						var recv T
 						suffix := ""
@@ -297,12 +301,14 @@ func (cd codec[T]) check(c *ctx, v T) {
 						nn := cd.unmarshal(&recv, src)
 						c.evals++
 						if nn != n {
+							freshFailed[ei] = freshFailed[ei] || !dirty
 							c.violate(cd.kind+":consumed-differs-from-written"+suffix, "%s: Marshal wrote %d bytes [%s], Unmarshal consumed %d (%s)", desc(), n, hexHead(enc), nn, how)
 						}
 						if cd.norm != nil {
 							cd.norm(&recv)
 						}
 						if d := diff(want, recv); d != "" {
+							freshFailed[ei] = freshFailed[ei] || !dirty
 							c.violate(cd.kind+":decoded-differs"+diffField(d)+suffix, "%s: encoded [%s], decoded %s; first difference (encoded vs decoded) at %s (%s)", desc(), hexHead(enc), show(recv), d, how)
 						}
 					}
